@@ -10,4 +10,5 @@ mkdir -p .build/ocaml
 [ -f harness/Cargo.lock ] || cp /repo/Cargo.lock harness/Cargo.lock
 ( cd harness && RUSTFLAGS="--cfg a2kit_verif" CARGO_TARGET_DIR=../.build/target cargo build --offline 2>&1 | tail -2 )
 ( cd /repo && RUSTFLAGS="--cfg a2kit_verif" CARGO_TARGET_DIR=/verif/.build/target-bins cargo build --offline --bins 2>&1 | tail -2 )
+gcc -shared -fPIC -O2 -o .build/fixclock.so lib/fixclock.c -ldl || echo "fixclock build failed"
 echo setup done
